@@ -15,7 +15,8 @@ static void auditOne(forest* f, const FSpec& fs, Ctx& c, const char* when) {
 
 static void widthCase(Ctx& c) {
     Rng& r = c.rng;
-    int which = int(r.below(7));   // 5, 6: several nodes in different counter-width classes at once, with table growth/shrink in between
+    const long wk = c.idx / 8;                 // width cases are every 8th case; the scenario is a function of the case index so that
+    int which = int(wk % 7); (void)r.below(7);   // every scenario (and every sub-variant below) is exercised whatever the seed   // 5, 6: several nodes in different counter-width classes at once, with table growth/shrink in between
     Config cfg = randomConfig(r, 1, true);
     initWithCT(cfg);
     installHandleMonitor();
@@ -93,12 +94,17 @@ static void widthCase(Ctx& c) {
         Table ta = tableG(), tb = tableG(), tc = tableG(); ta[1] = Val::in(11); tb[2] = Val::in(12); tc[3] = Val::in(13);
         dd_edge A(F), B(F), C(F); buildChecked(w, F, fs, ta, A, "C06"); buildChecked(w, F, fs, tb, B, "C06"); buildChecked(w, F, fs, tc, C, "C06");
         std::vector<dd_edge> ca, cb, cc;
-        bool bFirst = r.chance(1, 2);
+        // push_back into an unreserved vector re-copies the elements at every capacity doubling, so a count crosses each
+        // threshold several times in both directions; with reserve() it crosses exactly once.  Both histories are wanted.
+        bool reserved = (wk / 7) % 2 == 1; (void)r.chance(1, 2);
+        if (reserved) { ca.reserve(size_t(nA)); cb.reserve(300); cc.reserve(70); c.count("mixed_width_single_crossing_histories"); }
+        bool bFirst = (wk / 14) % 2 == 1; (void)r.chance(1, 2);
         if (bFirst) for (int i = 0; i < 300; i++) cb.push_back(B);
         for (long i = 0; i < nA; i++) ca.push_back(A);
         if (!bFirst) for (int i = 0; i < 300; i++) cb.push_back(B);
         for (int i = 0; i < 70; i++) cc.push_back(C);
         auditOne(F, fs, c, "all copies made"); c.count("width_plateaus_audited");
+        if (which == 6 && !bFirst && reserved) c.count("mixed_width_second_node_passes_255_once_in_32bit_mode");
         if (nA > 65536) c.count("crossed_16_to_32_bit"); c.count("crossed_8_to_16_bit");
         // release A (all, or down to a few)
         size_t keepA = r.chance(1, 2) ? 0 : size_t(r.range(1, 200));
